@@ -39,6 +39,9 @@ def tu_text(g):
             lines.append('extern "C" void %s_sub%d(const double* in, double* out) { smooth::Map<G> o(out); Eigen::Map<const %s> v(in); %s = v; }' % (t, k, ty, acc))
         else:
             lines.append('extern "C" void %s_sub%d(const double* in, double* out) { smooth::Map<G> o(out); smooth::Map<const %s> v(in); %s = v; }' % (t, k, ty, acc))
+            # sub-part view assigned from a view of the SAME buffer that starts one scalar after the sub-part (partial overlap)
+            lines.append('extern "C" void %s_subov%d(const double* in, double* out) { for (int i = 0; i < G::RepSize + 1; ++i) out[i] = in[i]; smooth::Map<G> o(out); '
+                         'smooth::Map<const %s> v(out + %d); %s = v; }' % (t, k, ty, lo + 1, acc))
     return "\n".join(lines) + "\n"
 
 
@@ -236,6 +239,32 @@ def job(g, tier):
                 res.add_raw(key + "/values", "holds" if ok else "violated", "sub-range receives the assigned values verbatim, the rest of the element keeps its old contents")
                 if not ok:
                     res.violations.append({"key": key + "/values", "what": key + " assigns wrong scalars"})
+        if "Eigen::" in ty:
+            continue
+        # the same sub-part assigned from an overlapping view of the same buffer (source one scalar after the sub-part)
+        fn = "%s_subov%d" % (t, k)
+        res.functions.add(fn)
+        exp_ = [ins[j + 1] if lo <= j < hi else ins[j] for j in range(R + 1)]
+        paths = ex.explore(fn, ins[:R + 1], R + 1, in_pad=PAD, out_pad=PAD)
+        res.note_paths(paths, ex)
+        key_o = "%s/subpart:%s/assign-overlap/src-after-dst" % (t, acc)
+        for p in paths:
+            if p.status != "ok":
+                res.add_raw(key_o, "undecided", "%s: %s" % (p.status, p.reason))
+                continue
+            if all(u is v for u, v in zip(p.outs, exp_)):
+                res.add_raw(key_o, "holds", "sub-part holds the overlapping source's previous coefficients (term identity), every other scalar untouched")
+                continue
+            inp = sampler(5)[:R + 1]
+            outn = h.native(fn, inp, R + 1)
+            want = [inp[j + 1] if lo <= j < hi else inp[j] for j in range(R + 1)]
+            if any(a != b for a, b in zip(outn, want)):
+                res.add_raw(key_o, "violated", "symbolic copy differs from the source's previous coefficients; reproduced natively")
+                res.violations.append({"key": key_o, "what": "%s: sub-part assigned from an overlapping view does not copy verbatim: got %r, expected %r" % (key_o, outn, want),
+                                       "replay": {"property": PID, "key": key_o, "tu_name": h.name, "tu_text": h.text, "fn": fn, "inputs": inp, "nout": R + 1, "native": outn,
+                                                  "err": 1.0, "tol": 0.0, "obligation": "verbatim copy between overlapping views", "lhs": str(outn), "rhs": str(want)}})
+            else:
+                res.add_raw(key_o, "undecided", "symbolic copy differs, native copy is verbatim (compiler-dependent evaluation order)")
     return res
 
 
